@@ -414,7 +414,8 @@ func (e *cryptoEnum) run() {
 					asc = append(asc, b)
 					desc = append(desc, 97-b)
 				}
-				seqs := [][]int{asc, desc, {5, 29, 5, 29, 30, 31, 32, 33, 1, 64, 63, 65, 40, 40, 8, 16, 24, 200, 199, 201, 8}}
+				seqs := [][]int{asc, desc, {5, 29, 5, 29, 30, 31, 32, 33, 1, 64, 63, 65, 40, 40, 8, 16, 24, 200, 199, 201, 8},
+					{8, 600, 64, 1100, 520, 2100, 16, 4200, 4200, 8}, {40, 512, 520, 528, 1024, 1032, 2048, 2056, 24}}
 				for si, sq := range seqs {
 					h := cryptoHistory{Mac: e.mac, Alg: alg, Via: via, Key: hex.EncodeToString(k[:]), Count: 0x00000777 + uint32(si), Bearer: uint8(3 + ki), Dir: uint8(ki), Pat: 1 + si%3, Lengths: sq}
 					e.n += int64(len(sq))
